@@ -2,12 +2,12 @@
 """Development tool: run, for every seeded change under /verif/seeded, the quick check of the property it was
 written for (and of the properties listed in also.txt) and record the outcome in meta.json.
 Uses parallel lanes (scratch git worktrees of /repo under /tmp, selected through VERIF_REPO), so /repo itself is
-never touched.  usage: seedmatrix.py [lanes] [name-prefix]"""
+never touched.  usage: seedmatrix.py [lanes] [name-prefix ...]"""
 import json, os, queue, subprocess, sys, threading, shutil, hashlib
 
 VERIF = os.path.dirname(os.path.dirname(os.path.abspath(__file__)))
 lanes = int(sys.argv[1]) if len(sys.argv) > 1 else 3
-prefix = sys.argv[2] if len(sys.argv) > 2 else ""
+prefix = tuple(sys.argv[2:]) or ("",)     # one or more name prefixes
 q = queue.Queue()
 for name in sorted(os.listdir(os.path.join(VERIF, "seeded"))):
     d = os.path.join(VERIF, "seeded", name)
